@@ -1,7 +1,7 @@
 (* Dispatch.v — single entry point of the executable model: one s-expression case
    in, one s-expression observation out.  Extracted to OCaml (ocaml/driver.ml) and
    evaluated by vm_compute in the per-run cases.v cross-check. *)
-From SE Require Import Base.Prelude Slots.SlotMapMachine Slots.SlotMachine Lang.LangMachine Parse.ParseMachine Group.GroupMachine Sem.EgMachine Explain.CheckMachine EGraph.ModelMachine EGraph.Model9 Extract.ExtractMachine EGraph.ModelAMachine.
+From SE Require Import Base.Prelude Slots.SlotMapMachine Slots.SlotMachine Lang.LangMachine Parse.ParseMachine Group.GroupMachine Sem.EgMachine Explain.CheckMachine EGraph.ModelMachine EGraph.Model9 Extract.ExtractMachine EGraph.ModelAMachine EGraph.RewriteMachine.
 
 Definition dispatch (e : sexp) : sexp :=
   match e with
@@ -20,5 +20,6 @@ Definition dispatch (e : sexp) : sexp :=
   | Lst (Sym "egt" :: args) => run_egt false args
   | Lst (Sym "egtl" :: args) => run_egt true args
   | Lst (Sym "eg14" :: args) => run_eg14 args
+  | Lst (Sym "egr" :: args) => run_egr args
   | _ => Sym "unknown-case"
   end.
